@@ -133,7 +133,7 @@ func checkC12(c *Ctx) {
 		}
 		for i := 0; i < ncli; i++ {
 			R, av := GenFile(r, fc, "")
-			sw := map[string]string{"GAME": r.Pick([]string{"RUBY", "RUBY=2", "EMERALD", "=", "A=B=C"}), "LANG": r.Pick([]string{"EN", "DE=AT"})}
+			sw := map[string]string{"GAME": r.Pick([]string{"RUBY", "RUBY=2", "EMERALD", "=", "A=B=C"}), "LANG": r.Pick([]string{"EN", "DE=AT", "", " EN", "en"})}
 			srcR, _ := RenderFile(R, Style{R: r, Layout: 0})
 			P, ws := DecorateFile(R, sw, r, true, true, true, false)
 			if len(ws) == 0 {
